@@ -16,6 +16,7 @@ SPEC = "c08_config_update"
 FLOWS = ["flows/a.yaml", "flows/b.yaml", "flows/c.yaml"]
 GW, MX = "gateway_config.yaml", "metrics.yaml"
 REPORTED = set()       # witness classes already reproduced and reported in this run
+UNREPRODUCED = []      # rejections that no re-execution showed again
 P_EVENTS = ("reset", "probe", "call", "status", "fault", "reply")     # what the property observes
 
 
@@ -112,6 +113,47 @@ def rand_case(rng, thorough, endpoints):
     return c
 
 
+def rand_history(rng, thorough, endpoints):
+    """a history of 2-4 updates issued to the same gateway one after the other (tree, engine and handler state carried over):
+    success that changes / removes files then failures at every step, failure then success, the endpoints alternating.
+    Every update but the last is one whose roll-back cannot be hit by the injected failure (valid payload, or no failure)."""
+    n = rng.choice([2, 2, 3, 3, 4])
+    hist = []
+    for j in range(n):
+        last = j == n - 1
+        for _ in range(50):
+            c = rand_case(rng, thorough, endpoints)
+            c.pop("conc", None)
+            if j == 0 and rng.random() < 0.6:        # start with an update that is meant to succeed, often one that drops files
+                c["endpoint"] = rng.choice(["apply_flows", "apply_flows", "configuration"])
+                c.pop("fault", None); c.pop("raw", None); c["badb64"] = []; c["method"] = "PUT"
+                c["payload"] = {k: ("v2" if k.startswith("flows/") else v) for k, v in c["payload"].items()
+                                if v not in ("gbad", "mbad") and not (c["endpoint"] == "apply_flows" and k == MX)}
+                if not any(k.startswith("flows/") for k in c["payload"]):
+                    c["payload"][rng.choice(FLOWS)] = "v2"
+            invalid = bool(c.get("raw") or c.get("badb64") or c.get("method", "PUT") != "PUT" or
+                           set(c["payload"].values()) & {"bad", "junk", "gbad", "mbad"})
+            if last or not (invalid and c.get("fault")):
+                break
+        if j > 0:
+            c["disk"] = {}
+        hist.append(c)
+    return hist
+
+
+def histories_from_model(outs, maxn):
+    """TLC-generated histories: the terminal states of the last update carry the earlier updates in `prev`."""
+    hs = {}
+    for o in outs:
+        if o["n"] < 2:
+            continue
+        seq = [from_model({"case": b}) for b in o["prev"]] + [from_model(o)]
+        for c in seq[1:]:
+            c["disk"] = {}
+        hs.setdefault(json.dumps([case_key(c) for c in seq]), seq)
+    return [hs[k] for k in sorted(hs)]
+
+
 # ------------------------------------------------------------------------------------------------ execution
 def run_batches(ctx, binary, batches, tag):
     """one child process per batch (the engine reads its ports at package init; NewHandlingDataManager costs 3 s)."""
@@ -132,9 +174,18 @@ def run_batches(ctx, binary, batches, tag):
     return parallel(one, list(enumerate(batches)), n=min(8, len(batches)) or 1)
 
 
-def batches_of(cases, n):
-    n = max(1, min(n, len(cases)))
-    return [cases[i::n] for i in range(n)]
+def batches_of(units, n):
+    """distribute units (a unit = a history: list of updates issued one after the other to the same gateway; a single
+    update is a history of length 1) over n processes; a history is never split and keeps its order."""
+    units = [u if isinstance(u, list) else [u] for u in units]
+    n = max(1, min(n, len(units)))
+    out = [[] for _ in range(n)]
+    for ui, u in enumerate(units):
+        for j, c in enumerate(u):
+            c["unit"], c["pos"], c["hlen"] = ui, j, len(u)
+            c["keep"] = j > 0
+            out[ui % n].append(c)
+    return out
 
 
 def project_p(events):
@@ -161,14 +212,46 @@ def witness_of(rej, case):
     e = h[min(at, len(h) - 1)]
     inv = rej.get("invariant") or "rejected"
     rep = next((x for x in h if x["ev"] == "reply"), {})
+    case = dict(case, disk=h[0].get("disk", case.get("disk", {})))       # for a later update of a history: the tree it started from
     return {"class": inv, "endpoint": case["endpoint"], "method": case.get("method", "PUT"), "kind": kind_of(case),
             "fault": (case.get("fault") or {"point": "none"})["point"], "status": rep.get("code"),
-            "at_event": e["ev"], "concurrent": bool(case.get("conc"))}
+            "at_event": e["ev"], "concurrent": bool(case.get("conc")),
+            "history_len": case.get("hlen", 1), "position": case.get("pos", 0) + 1}
+
+
+def clean(c):
+    return {k: v for k, v in c.items() if k not in ("id", "unit", "pos", "hlen")}
+
+
+def reproduce(ctx, binary, batch, c, tag):
+    """re-execute in a fresh process and let TLC judge again: first the history the rejected update belongs to, on its own;
+    if that is accepted, everything this process had executed up to and including that history (same instance, same order:
+    the rejection may depend on what earlier updates left in the handler).  Go's map iteration order differs from run to
+    run, hence a few attempts each.  Returns (witness, replay object) or None."""
+    unit = [x for x in batch if x["unit"] == c["unit"]]
+    last = max(i for i, x in enumerate(batch) if x["unit"] == c["unit"])
+    plans = [("history", unit, 3 if not any(x.get("conc") for x in unit) else 20)]
+    if last + 1 > len(unit):
+        plans.append(("process-prefix", batch[: last + 1], 3))
+    for scope, seq, attempts in plans:
+        seq = [dict(x) for x in seq]
+        want = {i + 1 for i, x in enumerate(seq) if x["unit"] == c["unit"]}
+        for attempt in range(attempts):
+            t2 = run_batches(ctx, binary, [seq], "%s-repro" % tag)[0]
+            a2, r2, _ = validate_history_trace(ctx, SPEC, "CfgTraceP", project_p(t2), tag="%s-repro" % tag, max_rounds=3)
+            r2 = [r for r in r2 if r["hist"][0]["case"] in want]
+            if r2:
+                cc = seq[r2[0]["hist"][0]["case"] - 1]
+                w = witness_of(r2[0], cc)
+                w["needs_earlier_updates_of_process"] = scope == "process-prefix"
+                return w, {"cases": [clean(x) for x in seq], "rejected_case": r2[0]["hist"][0]["case"], "scope": scope,
+                           "trace": t2, "clause": w["class"]}
+    return None
 
 
 def judge(ctx, binary, traces, batches, tag, seen):
-    """TLC validates every recorded trace against the property monitor; each rejection is re-executed once more in a
-    fresh process and judged again before it is reported."""
+    """TLC validates every recorded trace against the property monitor; each rejection is re-executed in a fresh process
+    and judged again before it is reported."""
     def one(it):
         i, ev = it
         return validate_history_trace(ctx, SPEC, "CfgTraceP", project_p(ev), tag="%s%d" % (tag, i), max_rounds=4)
@@ -180,32 +263,26 @@ def judge(ctx, binary, traces, batches, tag, seen):
         for h in hs:
             ctx.cov["evaluations"] += 1
             c = ids[h[0]["case"]]
-            key = case_key(c)
+            key = case_key(dict(c, disk=h[0]["disk"]))
             if key not in seen:
                 seen.add(key)
                 if nontrivial(h):
                     ctx.cov["distinct_nontrivial"] += 1
+            if c.get("pos", 0) > 0:
+                ctx.cov["history_updates"] = ctx.cov.get("history_updates", 0) + 1
         for rej in rejected:
-            c = dict(ids[rej["hist"][0]["case"]])
+            c = ids[rej["hist"][0]["case"]]
             w = witness_of(rej, c)
             sig = json.dumps(w, sort_keys=True)
-            if sig in REPORTED:
+            if sig in REPORTED or len(ctx.violations) >= 6:      # a handful of reproduced witnesses is enough for a verdict
                 continue
             REPORTED.add(sig)
-            reproduced = None
-            # the order in which Go iterates over the payload / backup maps differs from run to run: a rejection that depends on
-            # it needs a few attempts; the clause reported is the one of the reproduced run
-            for attempt in range(8 if not c.get("conc") else 20):
-                t2 = run_batches(ctx, binary, [[dict(c)]], "%s-repro%d" % (tag, bi))[0]
-                a2, r2, _ = validate_history_trace(ctx, SPEC, "CfgTraceP", project_p(t2), tag="%s-repro%d" % (tag, bi), max_rounds=1)
-                if r2:
-                    reproduced = t2
-                    w = witness_of(r2[0], c)
-                    break
-            if reproduced is None:
-                raise Broken("rejection not reproduced (%s): %s" % (tag, json.dumps(w)))
-            c.pop("id", None)
-            ctx.violation(w, {"case": c, "trace": reproduced, "clause": w["class"]})
+            r = reproduce(ctx, binary, batches[bi], c, "%s%d" % (tag, bi))
+            if r is None:
+                UNREPRODUCED.append(w)        # must not hide the reproduced ones: decided at the end of the run
+                ctx.log("rejection not reproduced: %s" % json.dumps(w))
+                continue
+            ctx.violation(r[0], r[1])
 
 
 def drift_check(ctx, traces, batches, tag, stats):
@@ -239,7 +316,8 @@ def run(ctx):
     sd = ctx.spec_dir(SPEC)
     ctx.cov["rule"] = ("case = (old tree, payload, verb, endpoint, one injected failure); cases = terminal states of the bounded "
                        "TLA+ model (every payload kind x every failure step) + seeded random cases over a wider universe; "
-                       "non-trivial = the update failed after at least one file had been written; distinct by case")
+                       "+ histories of 2-4 updates on one gateway (TLC walks / enumeration of the two-update model, seeded random); "
+                       "non-trivial = the update failed after at least one file had been written; distinct by (tree before, case)")
     ctx.cov["checker_cmd"] = ("tlc -config MC_quick.cfg|MC_thorough.cfg|MC_thorough3.cfg MC_C08.tla ; tlc -config MC_nv_<flag>.cfg MC_C08.tla ; "
                               "tlc -config GenC08.cfg|GenC08_full.cfg GenC08.tla ; tlc -config CfgTraceP.cfg CfgTraceP.tla ; "
                               "tlc -config CfgTraceI.cfg CfgTraceI.tla")
@@ -250,7 +328,8 @@ def run(ctx):
     ctx.assumptions += ["one injected failure per update (the n-th occurrence of a fault point fails once)",
                         "a failure injected into the roll-back itself (after the handler signalled failure) exempts the case",
                         "fs.store fails after the old file was removed and before the new one is created",
-                        "updates are issued one at a time (the handler's TryLock is not raced)"]
+                        "updates are issued one at a time (the handler's TryLock is not raced)",
+                        "in a history every update is judged against the tree its predecessor left; a history ends after an exempt update"]
     endpoints = ["configuration", "configuration", "apply_flows"]
 
     # (1) exhaustive: I => P on the bounded instance; every deviation flag must be refuted (non-vacuity)
@@ -258,29 +337,36 @@ def run(ctx):
     def stage(job):
         kind, arg = job
         if kind == "mc":
-            return ctx.tlc_exhaustive(sd, "MC_C08", arg, timeout=1500, heap="3g", workers=(8 if T else 6),
+            return ctx.tlc_exhaustive(sd, "MC_C08", arg, timeout=1500, heap="3g", workers=(8 if T else 4),
                                       label="I=>P, all cases x all interleavings of probes")
         if kind == "nv":
             return ctx.tlc(sd, "MC_C08", "MC_nv_%s.cfg" % arg, workers=2, timeout=600, heap="1g",
                            label="non-vacuity: %s must be refuted" % arg)
         if kind == "rand":     # the seeded random cases do not depend on TLC's output: record them meanwhile
             return run_batches(ctx, binary, arg, "rand")
+        if kind == "sim":      # histories: random walks of the model through 2..4 consecutive updates
+            cfgname, num = arg
+            return ctx.tlc(sd, "GenC08", cfgname, workers=1, timeout=600, heap="2g", simulate="num=%d" % num, depth=600,
+                           extra=["-seed", str(ctx.seed)], label="history generation (walks)")
         return ctx.tlc(sd, "GenC08", arg, workers=4, timeout=900, heap="3g", label="case generation")
     flags = ["RestoreWrongDirection", "PublishBeforeInit", "ContinueAfter405", "ApplyNoBackup", "MetricsToDefaultPath",
-             "NoReloadAfterRestore"]
-    nr = 180 if not T else 4000
+             "NoReloadAfterRestore", "StaleBackup"]
+    nr, nrh = (100, 50) if not T else (3000, 1200)
     rc = [rand_case(ctx.rng, T, endpoints) for _ in range(nr)]
-    rbatches = batches_of(rc, 4 if not T else 8)
-    jobs = [("mc", "MC_quick.cfg" if not T else "MC_thorough.cfg")] + [("nv", f) for f in flags] + \
-           [("rand", rbatches), ("gen", "GenC08.cfg" if not T else "GenC08_full.cfg")]
+    rh = [rand_history(ctx.rng, T, endpoints) for _ in range(nrh)]
+    rbatches = batches_of(rc + rh, 4 if not T else 8)
+    jobs = [("mc", "MC_quick.cfg" if not T else "MC_thorough.cfg"), ("mc", "MC_hist.cfg" if not T else "MC_hist3.cfg")] + \
+           [("nv", f) for f in flags] + \
+           [("rand", rbatches), ("gen", "GenC08.cfg" if not T else "GenC08_full.cfg"),
+            ("sim", ("GenC08_hist.cfg", 120) if not T else ("GenC08_hist4.cfg", 500))]
     if T:
-        jobs += [("mc", "MC_thorough3.cfg"), ("gen", "GenC08_mx.cfg"), ("gen", "GenC08_thorough.cfg")]
+        jobs += [("mc", "MC_thorough3.cfg"), ("gen", "GenC08_mx.cfg"), ("gen", "GenC08_thorough.cfg"), ("gen", "GenC08_hist.cfg")]
     res = parallel(stage, jobs, n=len(jobs))
-    byjob = {(k, a if isinstance(a, str) else "batches"): r for (k, a), r in zip(jobs, res)}
+    byjob = {(k, a if isinstance(a, str) else (a[0] if isinstance(a, tuple) else "batches")): r for (k, a), r in zip(jobs, res)}
     for (kind, arg), r in zip(jobs, res):
         if kind == "nv" and r.violated is None:
             raise Broken("model cannot tell deviation %s from the property (vacuous refinement check): %r" % (arg, r))
-        if kind == "gen" and not r.ok:
+        if kind in ("gen", "sim") and not r.ok:
             raise Broken("case generation %s failed: %r" % (arg, r))
     rtraces = byjob[("rand", "batches")]
     g = byjob[("gen", "GenC08.cfg" if not T else "GenC08_full.cfg")]
@@ -297,7 +383,7 @@ def run(ctx):
     rng = random.Random(ctx.seed)
     rng.shuffle(gen)
     rng.shuffle(health)
-    ngen = 420 if not T else len(gen)
+    ngen = 260 if not T else len(gen)
     sel = gen[:ngen]
     ctx.cov["exhaustive"] = bool(T)       # thorough: every case of the two-flow instances (GenC08_full.cfg, GenC08_mx.cfg) is replayed
     if T:      # plus every case of the instance without a user metrics file, plus a seeded sample of the three-flow instance
@@ -312,16 +398,27 @@ def run(ctx):
             rng.shuffle(extra)
             sel = sel + (extra if take is None else extra[:take])
             ctx.log("%s: %d cases generated, %d replayed" % (cfgname, len(cs), len(extra) if take is None else min(take, len(extra))))
+    # histories of updates on one gateway (tree, engine and handler state carried over), generated by TLC
+    mh = histories_from_model(tlc_vh_lines(byjob[("sim", "GenC08_hist.cfg" if not T else "GenC08_hist4.cfg")].out), 4)
+    if T:
+        bh = histories_from_model(tlc_vh_lines(byjob[("gen", "GenC08_hist.cfg")].out), 2)
+        rng.shuffle(bh)
+        mh = mh + bh[:2500]
+    mh = [h for h in mh if not any((c.get("fault") or {}).get("point") == "health" for c in h)]
+    if len(mh) < (40 if not T else 1000):
+        raise Broken("history generation produced only %d histories" % len(mh))
+    ctx.log("TLC generated %d histories of 2-4 updates; + %d seeded random histories" % (len(mh), len(rh)))
+    ctx.sample({"kind": "generated-history", "updates": [clean(c) for c in mh[0]]})
     # (3) code -> spec: seeded random cases over a wider universe (three flows, quota / path-parameter files, several bad files,
     #     other verbs, concurrent probe goroutines), recorded and validated together with the generated ones
     ctx.log("TLC generated %d outcomes / %d cases; replaying %d of them + %d seeded random cases + %d health-check failures" % (
         len(outs), len(predicted), len(sel), len(rc), 1 if not T else 4))
     nb = 7 if not T else 14
-    batches = batches_of(sel, nb) + [health[: (1 if not T else 4)]]
+    batches = batches_of(sel + mh, nb) + batches_of(health[: (1 if not T else 4)], 1)
     traces = run_batches(ctx, binary, batches, "gen")
     batches, traces = batches + rbatches, traces + rtraces
     ctx.log("recorded %d cases in %d processes" % (sum(len(b) for b in batches), len(batches)))
-    ctx.sample({"kind": "generated-case", "case": {k: v for k, v in sel[0].items() if k != "id"},
+    ctx.sample({"kind": "generated-case", "case": clean(sel[0]),
                 "model_outcome": predicted[case_key(sel[0])][1][0]})
     ctx.sample({"kind": "recorded-trace", "events": [e for e in traces[0][1:60] if e["ev"] != "haproxy"][:18]})
     seen = set()
@@ -338,6 +435,11 @@ def run(ctx):
             # the property held on everything observed but the exhaustive result no longer speaks about this code
             ctx.cov["states"] = 0
             ctx.cov["transitions"] = 0
+
+    if UNREPRODUCED:
+        ctx.notes.append("rejections not reproduced by re-execution: %s" % json.dumps(UNREPRODUCED)[:1500])
+        if not ctx.violations and not ctx.known_hits:
+            raise Broken("rejection not reproduced: %s" % json.dumps(UNREPRODUCED[0]))
 
     # (4) thorough: non-vacuity witnesses and per-action coverage of the model, binding self-test
     if T:
@@ -434,16 +536,21 @@ def self_test(ctx, traces, batches):
 def replay(ctx, path):
     obj = json.load(open(path))
     binary = ctx.build_harness("c08")
-    c = dict(obj["replay"]["case"])
-    t = run_batches(ctx, binary, [[c]], "replay")[0]
-    acc, rej, _ = validate_history_trace(ctx, SPEC, "CfgTraceP", project_p(t), tag="replay", max_rounds=1)
+    rp = obj["replay"]
+    seq = [dict(c) for c in (rp["cases"] if "cases" in rp else [rp["case"]])]
+    for attempt in range(6):           # Go's map iteration order may matter
+        t = run_batches(ctx, binary, [[dict(c) for c in seq]], "replay")[0]
+        acc, rej, _ = validate_history_trace(ctx, SPEC, "CfgTraceP", project_p(t), tag="replay", max_rounds=1)
+        if rej:
+            break
     for e in t:
         if e["ev"] != "haproxy":
             print(json.dumps(e))
     if rej:
         print("VIOLATION property=C08 replay=%s" % path)
-        print("   clause %s violated at event %d: %s" % (rej[0].get("invariant"), rej[0]["at"],
-                                                         json.dumps(rej[0]["hist"][min(rej[0]["at"], len(rej[0]["hist"]) - 1)])[:400]))
+        print("   clause %s violated in update %d of %d at event %d: %s" % (
+            rej[0].get("invariant"), rej[0]["hist"][0]["case"], len(seq), rej[0]["at"],
+            json.dumps(rej[0]["hist"][min(rej[0]["at"], len(rej[0]["hist"]) - 1)])[:400]))
         return 1
     print("replay accepted by the specification")
     return 0
